@@ -31,6 +31,8 @@ var (
 	pAef = u.F("pAef", "", "error,A")
 	pBem = u.F("pBem", "A", "B,error,{B@n}")
 	dAef = u.F("dAef", "A", "error,A")
+	pC0e = u.F("pC0e", "", "C,error") // C without dependencies; may fail
+	dAwC = u.F("dAwC", "A,C", "A")    // decorator of A that also needs C
 )
 
 // failedValueMonitor: no value of a failed execution is ever delivered.
@@ -183,6 +185,7 @@ func c07Units(tier string) []Unit {
 		{"group-decorator", alpha{scopes: []int{0, 1}, ctors: []*uFunc{fG1e, fG1}, decos: []*uFunc{dGe}, invokes: []*uFunc{iG, iGs}}, []string{"fG1e", "dGe"}, prefixChild},
 		{"deco-over-failing-ctor", alpha{scopes: []int{0, 1}, ctors: []*uFunc{pAe, pBe}, decos: []*uFunc{dAe}, invokes: []*uFunc{iA, iB}}, []string{"pAe", "dAe"}, prefixChild},
 		{"error-not-last", alpha{scopes: []int{0, 1}, ctors: []*uFunc{pAef, pBem}, decos: []*uFunc{dAef}, invokes: []*uFunc{iA, iB, iBn}}, []string{"pAef", "pBem", "dAef"}, prefixChild},
+		{"decorator-dependency-fails", alpha{scopes: []int{0, 1}, ctors: []*uFunc{pA, pB, pC0e}, decos: []*uFunc{dAwC}, invokes: []*uFunc{iBo, iB, iA}}, []string{"pC0e"}, prefixChild},
 		{"reentry-single", alpha{scopes: []int{0, 1}, ctors: []*uFunc{pA, pBe}, decos: []*uFunc{dABae}, invokes: []*uFunc{iA, iB}}, []string{"dABae", "pBe"}, prefixChild},
 		{"reentry-group", alpha{scopes: []int{0, 1}, ctors: []*uFunc{pA, fBgAe}, decos: []*uFunc{dGBAe}, invokes: []*uFunc{iA, iGB}}, []string{"dGBAe", "fBgAe"}, prefixChild},
 	}
@@ -202,7 +205,7 @@ func c07Units(tier string) []Unit {
 			}
 			for _, rec := range []bool{false, true} {
 				bb := b
-				if len(f.a.decos) > 0 {
+				if len(f.a.decos) > 0 && f.name != "decorator-dependency-fails" {
 					bb.Provides = 2
 					if bb.Decorates < 2 && f.name == "decorators" {
 						bb.Decorates = 2
@@ -345,6 +348,7 @@ func c13Units(tier string) []Unit {
 		{"decorators", alpha{scopes: []int{0, 1}, ctors: []*uFunc{pAe, pBe}, decos: []*uFunc{dAe, dABe}, invokes: []*uFunc{iAe, iBe}}, []string{"dAe", "dABe", "pAe"}, prefixChild},
 		{"group-decorator", alpha{scopes: []int{0, 1}, ctors: []*uFunc{fG1e, pCe}, decos: []*uFunc{dGe}, invokes: []*uFunc{iCe, iOe}}, []string{"dGe", "fG1e"}, prefixChild},
 		{"panic-only-functions", alpha{scopes: []int{0, 1}, ctors: []*uFunc{pA, pBp}, decos: []*uFunc{dAp}, invokes: []*uFunc{iA, iB}}, []string{"pBp", "dAp", "iA"}, prefixChild},
+		{"decorator-dependency-fails", alpha{scopes: []int{0, 1}, ctors: []*uFunc{pA, pB, pC0e}, decos: []*uFunc{dAwC}, invokes: []*uFunc{iBo, iBe, iAe}}, []string{"pC0e"}, prefixChild},
 		{"with-callbacks", alpha{scopes: []int{0, 1}, ctors: []*uFunc{pA, pBe.With("pBecb", u.WithCallback)}, decos: []*uFunc{dAe.With("dAecb", u.WithCallback)}, invokes: []*uFunc{iAe, iBe}}, []string{"pBecb", "dAecb"}, prefixChild},
 		{"error-not-last", alpha{scopes: []int{0, 1}, ctors: []*uFunc{pAef, pBem}, decos: []*uFunc{dAef}, invokes: []*uFunc{iAe, iBe, iBn}}, []string{"pAef", "pBem", "dAef"}, prefixChild},
 		{"reentry-single", alpha{scopes: []int{0, 1}, ctors: []*uFunc{pA, pBe}, decos: []*uFunc{dABae}, invokes: []*uFunc{iAe, iBe}}, []string{"dABae", "pBe"}, prefixChild},
